@@ -46,6 +46,15 @@ impl NodeProcessor for Processor {
             return;
         }
 
+        // moving a variable changes which declaration wins when a name is declared twice
+        let mut names = std::collections::HashSet::new();
+        if !assignment
+            .iter_variables()
+            .all(|variable| names.insert(variable.get_name()))
+        {
+            return;
+        }
+
         if assignment.variables_len() > assignment.values_len()
             && assignment
                 .last_value()
